@@ -418,7 +418,7 @@ REPAIRS = [('item28-padding-first-plus-last', 'pad_end_is_last'),
            ('item4-multitag-point-offset', 'mt_point_sets_data_offset,mt_invalid_range_throws'),
            ('item31-subulp-extent-is-point', 'mt_point_by_extent'),
            ('item19-empty-index-list', 'mt_empty_guard')]
-_explain_budget = [2500]
+_explain_budget = [300]
 
 
 def _model_lines(kind, case, flags):
